@@ -1,19 +1,25 @@
 #!/bin/bash
-# Offline setup: pre-build every harness crate's Kani goto binaries from /repo's current tree.
+# Offline setup: pre-build every harness crate's Kani goto binaries and the native replay crates
+# from /repo's current tree. (Checks rebuild incrementally on every run.)
 set -u
 cd "$(dirname "$0")"
 export CARGO_NET_OFFLINE=true
 mkdir -p .targets logs evidence replays
 python3 - <<'PY'
-import sys, os
+import sys, os, subprocess
 sys.path.insert(0, os.getcwd())
-from lib import runner, registry
+from lib import runner, registry, smt
 ok = True
 for crate in registry.CRATES:
-    if registry.CRATES[crate].get("engine", "kani") != "kani":
-        continue
     good, secs = runner.build_crate(crate, os.path.join(runner.LOGS, "setup.%s.log" % crate))
     print("setup: %s %s in %.0fs" % (crate, "built" if good else "FAILED", secs))
     ok = ok and good
+# native replay helpers
+rep, tail = smt.native_replay("udp-mio-scrape", {"k": 1}, 8192)
+print("setup: replay crate", "ok" if rep is not None else "FAILED " + str(tail)[-300:])
+ok = ok and rep is not None
+r, t = runner.directed_native_test("replay-ws", "c08_ownership_other_worker_same_slot")
+print("setup: replay-ws", "ok" if r is not None else "FAILED " + str(t)[-300:])
+ok = ok and r is not None
 sys.exit(0 if ok else 1)
 PY
